@@ -535,7 +535,7 @@ def decide(prop, tier, seed, lean, streams, concerns_fn, extra_cov=None, t0=None
     # 1. oracle hits on implementation traces: the property itself is false there
     for s in streams:
         for h in s.get("oracle_hits", []):
-            if h["property"] != prop:
+            if h["property"] != prop and prop != "C19":
                 continue
             k = is_known(h, s["config"])
             if k:
